@@ -511,6 +511,17 @@ def run_property(pid, cfg, tier, seed, bless=False, t0=None):
             known_hits.append((f, hit[0]))
         else:
             violations.append(f)
+    # a failed obligation without a failing input: before the suffix no-failing-input-found is printed, the bounded stand-in is run
+    # once more with its deep preset (more inputs, more interpretations) to look for an input of the real code for the replay file
+    if violations and not bounded_fail and tier != "thorough" and os.environ.get("VERIF_NO_ESCALATION") != "1":
+        for chk in cfg.get("bounded_checks", []):
+            br = bnd.run(chk, "thorough", timeout_s=900)
+            mine = [f for f in br.get("failures", []) if f.get("property") == pid]
+            bounded_runs.append({"check": chk + " (deep preset, after a failed obligation)", "status": br["status"] if br["status"] != "failing" or mine else "ok", "cmd": br.get("cmd"),
+                                 "stats": br.get("stats"), "wall_s": br.get("wall_s"), "build_s": br.get("build_s"), "reason": br.get("reason"), "failing_inputs_for_this_property": len(mine)})
+            bounded_fail.extend(mine)
+            if mine:
+                break
     # evidence
     wall = round(time.time() - t0, 2)
     discharged = sum(1 for f in ledger if f["success"])
@@ -607,7 +618,7 @@ def run_property(pid, cfg, tier, seed, bless=False, t0=None):
                 for f in bounded_fail[:20]:
                     fh.write(f"== input: {f['input']}\n{f['detail']}\n\n")
             else:
-                fh.write("No concrete failing input: Verus reports no counterexamples and the bounded stand-in found none (no-failing-input-found).\n")
+                fh.write("No concrete failing input: Verus reports no counterexamples and the bounded stand-in found none, neither with its quick nor with its deep preset (no-failing-input-found).\n")
             fh.write(f"Re-run: /verif/check {pid} --tier {tier}\n\n")
             for f in violations:
                 fh.write(f"== obligation {f['obligation']}\n")
